@@ -115,9 +115,9 @@ class SubWriterTask(Process):
         if not self.running:
             # I was cancelled, so I'll cancel my underlying writer
             writer.cancel()
-        elif writer.docnum == writer.docbase:
-            # Another task took all the jobs before I got any: there is
-            # nothing to hand back. (Not cancel(): that would destroy the
+        elif not multisegment and writer.docnum == writer.docbase:
+            # Another task took all the jobs before I got any: there is no
+            # run to hand back. (Not cancel(): that would destroy the
             # temporary storage the other tasks and the parent are using.)
             writer._partial_segment()
             resultqueue.put(None, timeout=5)
